@@ -433,3 +433,27 @@ func c03UnusedOperandCoverage(p *Prog) *RuleResult {
 		judges: map[string][]int{}, escapes: c03SimplifyEscapes, variants: map[string]c04Variant{}, useMode: true, floor: 20,
 	})
 }
+
+// C03/R5 liveness class.
+//
+// Dead-case elimination for `switch` is a may-analysis with three answers: alwaysDead,
+// livenessUnknown (depends on run-time values) and alwaysLive. Whatever is done because a case
+// "can be entered" — propagating reachability along fall-through, keeping the body — must be
+// done for livenessUnknown exactly as for alwaysLive; only "everything after a case that is
+// certainly taken is dead" may single out alwaysLive. Rule (E-CLASS, shared with C11/R3): every
+// equality branch on alwaysLive is shared with livenessUnknown, except the reviewed sites.
+var c03LiveOnly = ExcTable{
+	"js_parser.analyzeSwitchCasesForLiveness #1": "`maxStatus == alwaysLive`: once an earlier case is certainly taken every later case is dead — that conclusion needs certainty, so it must not be drawn for livenessUnknown",
+}
+
+func c03LivenessClass(p *Prog) *RuleResult {
+	r := NewRule("C03/R5 liveness-class", "in the switch dead-case analysis every branch taken for alwaysLive (a case that can be entered) is also taken for livenessUnknown, except where certainty is required")
+	_, ok := checkEnumClass(p, r, "/internal/js_parser", "livenessStatus", "alwaysLive", "livenessUnknown", c03LiveOnly,
+		"a decision of the switch liveness analysis is taken for alwaysLive but not for livenessUnknown: a case whose test depends on run-time values can be entered too, so what it falls through into (or its body) is then treated as dead code and deleted", "")
+	if !ok {
+		return r
+	}
+	r.StaleCheck(c03LiveOnly)
+	r.Floor(1)
+	return r
+}
